@@ -6,6 +6,7 @@ package main
 import (
 	"fmt"
 	"sync/atomic"
+	"time"
 
 	"github.com/cosmos/iavl"
 	"github.com/cosmos/iavl/verifcheck/ref"
@@ -179,6 +180,33 @@ var _ = ref.EmptyHash
 
 // ---- one fixed import that spans more than one importer batch (10 000 nodes) ----
 
+// bigImportLeaves: 10500 leaves = 20999 nodes = three importer batches (two background batch writes and the final one)
+const bigImportLeaves = 10500
+
+// importHangLimit: an import call (Add / Commit / Close) that has not returned after this time is reported as a
+// hang (the statement: "the importer never panics or hangs"). Generous: the whole import takes well under a second.
+const importHangLimit = 180 * time.Second
+
+// runImportGuarded runs runImport in a goroutine and gives up waiting after importHangLimit.
+func runImportGuarded(st *vstore.Store, cfg Cfg, v int64, stream []*iavl.ExportNode) (err error, hung bool, pv *Violation) {
+	type res struct {
+		err error
+		pv  *Violation
+	}
+	ch := make(chan res, 1)
+	go func() {
+		var e error
+		p := safely("big import", func() *Violation { e = runImport(st, cfg, v, stream); return nil })
+		ch <- res{e, p}
+	}()
+	select {
+	case r := <-ch:
+		return r.err, false, r.pv
+	case <-time.After(importHangLimit):
+		return nil, true, nil
+	}
+}
+
 type bigStream struct {
 	version int64
 	hash    []byte
@@ -188,8 +216,8 @@ type bigStream struct {
 func buildBigStream() (*bigStream, error) {
 	st := vstore.New()
 	t := iavl.NewMutableTree(st, 0, true, iavl.NewNopLogger())
-	for i := 0; i < 6000; i++ {
-		if _, err := t.Set([]byte(fmt.Sprintf("key-%05d", (i*7919)%6000)), []byte(fmt.Sprintf("v%d", i))); err != nil {
+	for i := 0; i < bigImportLeaves; i++ {
+		if _, err := t.Set([]byte(fmt.Sprintf("key-%05d", (i*7919)%bigImportLeaves)), []byte(fmt.Sprintf("v%d", i))); err != nil {
 			return nil, err
 		}
 	}
@@ -307,8 +335,12 @@ func bigImportDeviationsCfg(bs *bigStream, cfg Cfg, faults, cuts bool) (evals in
 		for i := 0; i < nWrites; i++ {
 			st := vstore.New()
 			st.FailKindNth = map[vstore.CallKind]int{vstore.CBatchWrite: i}
-			var ierr error
-			if pv := safely("big import", func() *Violation { ierr = runImport(st, cfg, bs.version, bs.nodes); return nil }); pv != nil {
+			ierr, hung, pv := runImportGuarded(st, cfg, bs.version, bs.nodes)
+			if hung {
+				fails = append(fails, fmt.Sprintf("import of %d nodes (fast index %v) with its batch write #%d failing: the importer hangs (Add/Commit/Close has not returned after %v)", len(bs.nodes), cfg.Fast, i, importHangLimit))
+				continue
+			}
+			if pv != nil {
 				fails = append(fails, fmt.Sprintf("import of %d nodes (fast index %v) with its batch write #%d failing: %s", len(bs.nodes), cfg.Fast, i, pv.Detail))
 				continue
 			}
@@ -329,8 +361,10 @@ func bigImportDeviationsCfg(bs *bigStream, cfg Cfg, faults, cuts bool) (evals in
 			if postState(img) != "" {
 				evals++
 				re := img.Clone()
-				var ierr error
-				if pv := safely("repeated import", func() *Violation { ierr = runImport(re, cfg, bs.version, bs.nodes); return nil }); pv != nil {
+				ierr, hung, pv := runImportGuarded(re, cfg, bs.version, bs.nodes)
+				if hung {
+					fails = append(fails, fmt.Sprintf("%s: repeating the import hangs", what))
+				} else if pv != nil {
 					fails = append(fails, fmt.Sprintf("%s: repeating the import panics: %s", what, pv.Detail))
 				} else if ierr != nil {
 					fails = append(fails, fmt.Sprintf("%s: repeating the import fails: %v", what, ierr))
